@@ -50,7 +50,7 @@ Proof. intros H. unfold complement32. rewrite c_shl_bad by exact H. reflexivity.
 Lemma shl_u64_one n : 0 <= n < 64 -> c_shl u64 1 n = Some (2 ^ n).
 Proof.
   intros Hn. rewrite c_shl_u_ok; [|reflexivity|apply shift_ok_spec; exact Hn].
-  rewrite Z.shiftl_1_l. rewrite Z.mod_small; [reflexivity|].
+  rewrite Z.shiftl_1_l. cbn [ibits u64]. rewrite Z.mod_small; [reflexivity|].
   split; [apply Z.pow_nonneg; lia|apply Z.pow_lt_mono_r; lia].
 Qed.
 
@@ -159,7 +159,7 @@ Proof.
   intros R H. unfold complement_u32, BitOps4_complement. rewrite complement32_ub; [reflexivity|].
   rewrite cast_u32. intros C. destruct (Z_lt_le_dec n 0).
   - replace (n mod 2 ^ 32) with (n + 2 ^ 32) in C; [lia|].
-    symmetry. apply Z.mod_unique with (-1); lia.
+    apply Z.mod_unique with (-1); lia.
   - rewrite Z.mod_small in C by lia. lia.
 Qed.
 
@@ -168,6 +168,6 @@ Proof.
   intros R H. unfold complement_u64, BitOps8_complement. rewrite complement64_ub; [reflexivity|].
   rewrite cast_u32. intros C. destruct (Z_lt_le_dec n 0).
   - replace (n mod 2 ^ 32) with (n + 2 ^ 32) in C; [lia|].
-    symmetry. apply Z.mod_unique with (-1); lia.
+    apply Z.mod_unique with (-1); lia.
   - rewrite Z.mod_small in C by lia. lia.
 Qed.
